@@ -9,7 +9,7 @@
 (***************************************************************************)
 EXTENDS MC_STFS, Json
 
-CONSTANTS Depth, OkBias
+CONSTANTS Depth, OkBias, HBias
 
 VARIABLES hist, done
 gvars == <<vars, hist, done>>
@@ -30,7 +30,7 @@ Snap(tp, idx, rf, lst, na, oldLen) ==
                [call |-> r.call, action |-> r.action, name |-> r.name, old |-> r.old, rc |-> r.rc,
                 kind |-> r.kind, content |-> r.content]]]
 
-Useful(c) == /\ RefStep(ref, c).res = "ok"
+Useful(c) == /\ Outcome(c).res = "ok"
              /\ c.op \notin Observers
              /\ ~(c.op = "Rename" /\ c.p = c.q)
              /\ ~(c.op = "RemoveAll" /\ c.p \notin DOMAIN ref)
@@ -41,7 +41,14 @@ Pick == LET ok   == {c \in Calls : Useful(c) /\ Fits(c) /\ ArchiveOK(c)}
             all  == {c \in Calls : Fits(c) /\ ArchiveOK(c)}
             near == {c \in all : ~Useful(c) /\ c.op \notin Observers /\ Near(c.p) /\ (c.op = "Rename" => c.q \in DOMAIN ref)}
             k    == RandomElement(1..100)
-        IN {RandomElement(IF k <= OkBias /\ ok # {} THEN ok
+            hc   == HandleCalls
+            hcok == {c \in hc : Outcome(c).res = "ok"}
+            \* calls that hit the path of an open handle or one of its ancestors (rename / remove / chmod / rewrite it while open)
+            touch == {c \in ok : \E h \in DOMAIN hs : IsPrefix0(c.p, hs[h].path)}
+        IN IF hc # {} /\ RandomElement(1..100) <= HBias
+           THEN {RandomElement(IF hcok # {} /\ RandomElement(1..100) <= 85 THEN hcok ELSE hc)}
+           ELSE IF touch # {} /\ RandomElement(1..100) <= HBias THEN {RandomElement(touch)} ELSE
+           {RandomElement(IF k <= OkBias /\ ok # {} THEN ok
                           ELSE IF k <= OkBias + (100 - OkBias) \div 2 /\ near # {} THEN near ELSE all)}
 
 GInit == Init /\ hist = <<>> /\ done = FALSE
